@@ -613,8 +613,8 @@ func c03Program(r *Rng, compilable bool) string {
 		}
 	}
 	if r.Chance(0.25) {
-		g.classes = []string{"c1", "c2"}
 		parts = append(parts, g.kw("classes")+": {\n  c1: {"+g.styleDecl(false)+"}\n  c2: {\n    "+g.attrDecl()+"\n    "+g.kw("label")+": CL\n  }\n}")
+		g.classes = []string{"c1", "c2"}
 	}
 	boardsFirst := r.Chance(0.05)
 	if boardsFirst && r.Chance(0.7) {
